@@ -187,3 +187,79 @@ pub fn program(cfg: &AspCfg) -> BoxedStrategy<asp::Program> {
         .prop_map(|rules| asp::Program { rules })
         .boxed()
 }
+
+// ---------------------------------------------------------------------------------------
+// safety shaping: bind variables so that the reference semantics and the exact evaluator
+// give definite answers
+
+fn directly_bound(r: &asp::Rule) -> std::collections::BTreeSet<String> {
+    let mut out = std::collections::BTreeSet::new();
+    for f in &r.body.formulas {
+        match f {
+            asp::AtomicFormula::Literal(l) if l.sign != asp::Sign::Negation => {
+                for t in &l.atom.terms {
+                    if let asp::Term::Variable(v) = t {
+                        out.insert(v.0.clone());
+                    }
+                }
+            }
+            _ => {}
+        }
+    }
+    out
+}
+
+/// append a binder for every variable that no positive body literal binds directly
+pub fn make_safe(mut r: asp::Rule, domain: &[(String, usize)], choices: &[u8]) -> asp::Rule {
+    let bound = directly_bound(&r);
+    let mut vars: Vec<String> = r.variables().into_iter().map(|v| v.0).collect();
+    vars.sort();
+    for (i, v) in vars.iter().enumerate() {
+        if bound.contains(v) {
+            continue;
+        }
+        let c = choices.get(i % choices.len().max(1)).copied().unwrap_or(0);
+        let binder = match c % 6 {
+            0 => asp::AtomicFormula::Comparison(asp::Comparison {
+                relation: asp::Relation::Equal,
+                lhs: var(v),
+                rhs: binop(asp::BinaryOperator::Interval, num((c % 3) as isize - 1), num((c % 4) as isize + 1)),
+            }),
+            1 => asp::AtomicFormula::Comparison(asp::Comparison {
+                relation: asp::Relation::Equal,
+                lhs: var(v),
+                rhs: num((c % 5) as isize - 2),
+            }),
+            _ => {
+                let (name, arity) = &domain[(c as usize / 6) % domain.len()];
+                let pos = (c as usize / 3) % arity.max(&1);
+                let terms = (0..*arity)
+                    .map(|k| if k == pos { var(v) } else { var(&vars[(i + k) % vars.len()]) })
+                    .collect();
+                asp::AtomicFormula::Literal(asp::Literal {
+                    sign: asp::Sign::NoSign,
+                    atom: asp::Atom {
+                        predicate_symbol: name.clone(),
+                        terms,
+                    },
+                })
+            }
+        };
+        r.body.formulas.push(binder);
+    }
+    r
+}
+
+/// rules that are safe with probability ~0.8
+pub fn shaped_rule(cfg: &AspCfg) -> BoxedStrategy<asp::Rule> {
+    let domain: Vec<(String, usize)> = cfg.preds.iter().filter(|p| p.1 > 0).cloned().collect();
+    (rule(cfg), vec(any::<u8>(), 4), 0u8..10)
+        .prop_map(move |(r, choices, p)| if p < 8 && !domain.is_empty() { make_safe(r, &domain, &choices) } else { r })
+        .boxed()
+}
+
+pub fn shaped_program(cfg: &AspCfg, min_rules: usize) -> BoxedStrategy<asp::Program> {
+    vec(shaped_rule(cfg), min_rules..=cfg.max_rules)
+        .prop_map(|rules| asp::Program { rules })
+        .boxed()
+}
